@@ -116,6 +116,39 @@ let gj_of_pool (spec : string) : gj option =
                g_file = gj_file k m po; g_unlimited_schedule = (f.(3) = "-1"); g_instances = int_of_string f.(0) }
     | _ -> None
 
+(* ---- pools whose provider is the real JSON decode provider: jd-<poison>-<passes>-<limit>-<style> (Model/JsonDecode.v) ---- *)
+type jd = { d_items : jitem list; d_passes : int; d_limit : int; d_style : string; d_chunked : bool;
+            d_unlimited_schedule : bool; d_instances : int }
+
+let jd_of_pool (spec : string) : jd option =
+  let f = pool_fields spec in
+  if Array.length f < 8 then None
+  else match String.split_on_char '-' f.(4) with
+    | [ "jd"; poison; passes; limit; style ] ->
+        let po = (match poison with "bad" -> JpBad | "blank" -> JpBlank | _ -> JpNone) in
+        let k = nat_of_int (int_of_string f.(5)) and m = nat_of_int (max 0 (int_of_string f.(2))) in
+        Some { d_items = jd_items k m po; d_passes = int_of_string passes; d_limit = int_of_string limit; d_style = style;
+               d_chunked = (f.(6) = "1"); d_unlimited_schedule = (f.(3) = "-1"); d_instances = int_of_string f.(0) }
+    | _ -> None
+
+(* the model's run of such a pool: an object that does not decode is met in the first pass (part A: the reads of one
+   pass); healthy data on a source that can be sought is read pass after pass (part B) *)
+let jd_model (j : jd) : (jdres * int) option =
+  let seekable = (j.d_style = "f") in
+  let has_bad = jd_spec_fails j.d_items in
+  if seekable && not has_bad && j.d_passes <> 1 then begin
+    let a = int_of_nat (jd_count_ammo j.d_items) in
+    if j.d_passes = 0 && j.d_limit = 0 && a > 0 then None
+    else
+      let (r, d) = jd_passes (nat_of_int 10000) jd_current (nat_of_int j.d_passes) (nat_of_int j.d_limit) (nat_of_int a)
+                     (j.d_items <> []) (nat_of_int 0) (nat_of_int 0) (nat_of_int 0) in
+      Some (r, int_of_nat d)
+  end else begin
+    let chunks = if j.d_chunked then List.map (fun i -> [ i ]) j.d_items else (if j.d_items = [] then [] else [ j.d_items ]) in
+    let (r, d) = jd_pass jd_current (nat_of_int j.d_limit) (j.d_style = "e") chunks false (nat_of_int 0) in
+    Some (r, int_of_nat d)
+  end
+
 (* ---- pools whose gun is the real grpc gun: gw-<ver><sc>[p]-<dial>-<list>-<svc>.<svc>... ---- *)
 type gw = { w_rf : reflsrv; w_cp : cpconf }
 
@@ -293,6 +326,14 @@ let predict (c : string) (obs : string) : string * string * bool =
              | (POutOfFuel, _) -> None)
         | Some _ -> None
         | None ->
+        match jd_of_pool specs.(p) with
+        | Some j when undisturbed p && j.d_unlimited_schedule && j.d_instances >= 1 ->
+            (match jd_model j with
+             | Some (JdNil, d) -> Some ("nil", Some d)
+             | Some (JdFail, _) -> Some ("f.prov", None)
+             | _ -> None)
+        | Some _ -> None
+        | None ->
         match gj_of_pool specs.(p) with
         | Some g when undisturbed p && g.g_unlimited_schedule && g.g_instances >= 1
                       && (int_of_nat g.g_cf.j_passes <> 0 || int_of_nat g.g_cf.j_limit <> 0) ->
@@ -377,6 +418,11 @@ let predict (c : string) (obs : string) : string * string * bool =
             (match (if pi < npools then gj_of_pool specs.(pi) else None) with
              | Some g when (cancel = "none" || cancel = "after") && g.g_unlimited_schedule && gj_spec_fails g.g_cf g.g_file ->
                  Some (pi, CProv)
+             | _ ->
+             (* the JSON decode provider was handed an object that does not decode; no limit, nothing else ends the pool *)
+             match (if pi < npools then jd_of_pool specs.(pi) else None) with
+             | Some j when (cancel = "none" || cancel = "after") && j.d_unlimited_schedule && j.d_limit = 0
+                           && jd_spec_fails j.d_items -> Some (pi, CProv)
              | _ -> None)
         | _ -> None in
       (* the real grpc gun's WarmUp was entered against an endpoint that, by the specification [gw_spec_fails], a warm-up
@@ -418,6 +464,17 @@ let predict (c : string) (obs : string) : string * string * bool =
                         && (int_of_nat g.g_cf.j_passes <> 0 || int_of_nat g.g_cf.j_limit <> 0)
                         && not (gj_spec_fails g.g_cf g.g_file) ->
               let want = int_of_nat (gj_spec_delivered g.g_cf g.g_file) in
+              let shot = (try int_of_string a_obs.(p) with _ -> -1) in
+              if shot <> want then Some (p, shot, want) else None
+          | _ -> None) (List.init npools (fun p -> p)) in
+      (* the same for the JSON decode provider: data and configuration say how much there is to shoot ([jd_spec_delivered]) *)
+      let short_jd =
+        if r_obs <> "nil" then None
+        else List.find_map (fun p ->
+          match jd_of_pool specs.(p) with
+          | Some j when undisturbed p && j.d_unlimited_schedule && j.d_instances >= 1 && not (jd_spec_fails j.d_items)
+                        && not (j.d_style = "f" && j.d_passes = 0 && j.d_limit = 0 && int_of_nat (jd_count_ammo j.d_items) > 0) ->
+              let want = int_of_nat (jd_spec_delivered (j.d_style = "f") (nat_of_int j.d_passes) (nat_of_int j.d_limit) j.d_items) in
               let shot = (try int_of_string a_obs.(p) with _ -> -1) in
               if shot <> want then Some (p, shot, want) else None
           | _ -> None) (List.init npools (fun p -> p)) in
@@ -502,9 +559,11 @@ let predict (c : string) (obs : string) : string * string * bool =
           let fs = String.concat "+" (List.sort_uniq compare (List.map (fun (_, c) -> cause_name c) fails)) in
           let from_wu = List.exists (fun (t, _) -> wu_fail t <> None) before in
           let from_src = (not from_wu) && List.exists (fun (t, _) -> src_fail t <> None) before in
+          let from_jd = from_src && List.exists (fun (t, _) -> match src_fail t with
+            | Some (pi, _) -> pi < npools && jd_of_pool specs.(pi) <> None | None -> false) before in
           match o.o_res with
           | RNil -> if not all_nil then "BAD:outcome:nil-before-natural-end"
-                    else "BAD:outcome:nil-despite-failure:" ^ fs ^ (if from_src then ":grpcjson-provider-swallowed-a-broken-ammo-file" else "")
+                    else "BAD:outcome:nil-despite-failure:" ^ fs ^ (if from_src then (if from_jd then ":json-decode-provider-swallowed-an-object-that-does-not-decode" else ":grpcjson-provider-swallowed-a-broken-ammo-file") else "")
                          ^ (if from_wu then ":grpc-gun-warm-up-swallowed-a-refused-reflection-request" else "")
           | RCtx -> "BAD:outcome:ctx-error-without-cancel"
           | RFail c -> if cancelled then "BAD:outcome:failure-returned-after-cancel:" ^ cause_name c
@@ -520,6 +579,12 @@ let predict (c : string) (obs : string) : string * string * bool =
           (match short_pool with
            | Some (p, shot, want) ->
                Printf.sprintf "BAD:outcome:nil-before-out-of-ammo:grpcjson-provider pool=%d shots=%d file-and-config-ask-for=%d" p shot want
+           | None -> "ok")
+        else if short_jd <> None then
+          (match short_jd with
+           | Some (p, shot, want) ->
+               Printf.sprintf "BAD:outcome:nil-%s:json-decode-provider pool=%d shots=%d data-and-config-ask-for=%d"
+                 (if shot < want then "before-out-of-ammo" else "after-more-shots-than-asked-for") p shot want
            | None -> "ok")
         else if not o.o_wait then begin
           let pre = List.filter_map (fun t -> match String.split_on_char '.' t with
